@@ -61,10 +61,42 @@ def handle : List String → Option String
         ++ s!"\tnode={short (nodeRecord (locateNode false d path))}\tnodelast={short (nodeRecord (locateNode true d path))}")
   | ["pre", dh] => do
     let doc ← unhexArg dh
-    let valid := (parseDoc doc).isSome
-    match preorder doc with
-    | some es => some s!"model=ok:{eventsStr es}\tvalid={if valid then 1 else 0}"
-    | none => some s!"model=err\tvalid={if valid then 1 else 0}"
+    let tree := parseDoc doc
+    let valid := tree.isSome
+    let sk := match tree with
+      | some d => s!"\tmskip=ok:{eventsStr (flattenSkip 1 0 d)}\tdepth={depth d}"
+      | none => ""
+    match preorderD maxRecurse doc with
+    | .ok es => some (s!"model=ok:{eventsStr es}\tvalid={if valid then 1 else 0}" ++ sk)
+    | .syntax => some (s!"model=err\tvalid={if valid then 1 else 0}" ++ sk)
+    | .tooDeep => some (s!"model=depth\tvalid={if valid then 1 else 0}" ++ sk)
+  | ["c14seq", dh, steps] => do
+    let doc ← unhexArg dh
+    match parseDoc doc with
+    | none => some "model=invalid"
+    | some d =>
+      let stepList := steps.splitOn ";"
+      let paths ← stepList.mapM fun st =>
+        if st.startsWith "g" || st.startsWith "c" then (parsePath (st.drop 1).toString).map some
+        else some none
+      let lookups := paths.filterMap id
+      -- the implementation model: every lookup of the sequence through the byte-level searcher
+      let answers := searchSeq {} doc lookups
+      let render := fun (r : Res Bytes) => match r with
+        | .found raw => (match parseDoc raw with | some v => "ok:" ++ ocanon v | none => "ok:unparsable")
+        | _ => "nf"
+      let specOf := fun (p : Path) => match locate d p with | some v => "ok:" ++ ocanon v | none => "nf"
+      let rec zipUp : List (Option Path) → List (Res Bytes) → List String × List String
+        | [], _ => ([], [])
+        | none :: ps, as => let (a, b) := zipUp ps as; ("-" :: a, "-" :: b)
+        | some p :: ps, r :: as => let (a, b) := zipUp ps as; (render r :: a, specOf p :: b)
+        | some p :: ps, [] => let (a, b) := zipUp ps []; ("?" :: a, specOf p :: b)
+      let (m, sp) := zipUp paths answers
+      -- the documented Node API (Index on an object = i-th pair), only for the known-finding matcher
+      let nd := paths.map fun
+        | none => "-"
+        | some p => match locateNode false d p with | .found v => "ok:" ++ ocanon v | _ => "nf"
+      some s!"model={joinWith "|" m}\tspec={joinWith "|" sp}\tnode={joinWith "|" nd}"
   | _ => none
 
 end SonicSpec.Driver.Search
